@@ -23,6 +23,10 @@ use tokio::sync::mpsc;
 const LOOKUP_TIMEOUT: Duration = Duration::from_millis(1500);
 const ENDGAME_TIMEOUT: Duration = Duration::from_millis(1500);
 const ANNOUNCE_PICK_NUM: usize = 8;
+// A token has to be sent back inside an `announce_peer` request, which (like every datagram) must
+// fit the 1500 byte receive buffer of the peer. BEP5 does not bound the token length, so a node
+// that hands out a longer one than this simply is not announced to.
+const MAX_ANNOUNCE_TOKEN_LEN: usize = 1024;
 
 // Currently using the aggressive variant of the standard lookup procedure.
 // https://people.kth.se/~rauljc/p2p11/jimenez2011subsecond.pdf
@@ -151,8 +155,13 @@ impl TableLookup {
         }
 
         if let Some(token) = msg.token {
-            // Add the announce token to our list of tokens
-            self.announce_tokens.insert(*node.handle(), token);
+            if token.len() <= MAX_ANNOUNCE_TOKEN_LEN {
+                // Add the announce token to our list of tokens
+                self.announce_tokens.insert(*node.handle(), token);
+            } else {
+                // Its latest token cannot be echoed; an older one must not be used in its place.
+                self.announce_tokens.remove(node.handle());
+            }
         }
 
         let nodes = match socket.ip_version() {
